@@ -1611,6 +1611,85 @@ func main() {
 			countStmts("leveldb/session_util.go", "session.newManifest", "err = s.stor.SetMeta(fd)") == 1,
 		"`newManifest`: `Create`, one record (`rec.encode`, `Flush`), `Sync`, and `SetMeta` as the last storage call")
 
+	// the error paths of the DB iterator (C02 / C08)
+	o.b.WriteString("\n/-! Error paths of `dbIter` (read off the Go AST). -/\n\n")
+	o.boolean("iterPrevChecksErr", func() bool {
+		// the last two top-level statements of dbIter.prev: `if i.iterErr(); i.err != nil { return false }`, `return true`
+		fd := findFunc("leveldb/db_iter.go", "dbIter.prev")
+		if fd == nil {
+			fatal("function dbIter.prev not found")
+		}
+		n := len(fd.Body.List)
+		if n < 2 {
+			return false
+		}
+		txt := func(st ast.Stmt) string {
+			var buf bytes.Buffer
+			printer.Fprint(&buf, token.NewFileSet(), st)
+			return strings.Join(strings.Fields(buf.String()), " ")
+		}
+		return txt(fd.Body.List[n-2]) == "if i.iterErr(); i.err != nil { return false }" && txt(fd.Body.List[n-1]) == "return true"
+	}(),
+		"`dbIter.prev`: the scan's last exit consults the raw iterator's error (`if i.iterErr(); i.err != nil { return false }`) before `return true` (the D40 repair)")
+
+	// the durability repairs D10, D26, D12 (Model/Durable.lean: `Cfg.discardKeepsTablesWhenUncertain`,
+	// `Cfg.cleanupChecksCurrent`, `Cfg.manifestsAloneAreNoDB`)
+	o.boolean("discardGuardsUncertainManifest", func() bool {
+		// `Transaction.discard`: an `if tr.db.s.manifestUncertain() { …; return }` among the top-level statements,
+		// before the `for … range tr.tables` loop that removes the tables; no removal outside that loop
+		fd := findFunc("leveldb/db_transaction.go", "Transaction.discard")
+		if fd == nil {
+			return false
+		}
+		guard, loop := -1, -1
+		for i, st := range fd.Body.List {
+			t := strings.TrimSpace(stmtText(st))
+			if is, ok := st.(*ast.IfStmt); ok && strings.TrimSpace(exprString(is.Cond)) == "tr.db.s.manifestUncertain()" {
+				n := len(is.Body.List)
+				if n > 0 && strings.TrimSpace(stmtText(is.Body.List[n-1])) == "return" && guard < 0 {
+					guard = i
+				}
+			}
+			if _, ok := st.(*ast.RangeStmt); ok && strings.HasPrefix(t, "for _, t := range tr.tables") &&
+				strings.Contains(t, "tr.db.s.tops.remove(t.fd)") {
+				loop = i
+			}
+		}
+		return guard >= 0 && loop > guard &&
+			strings.Count(funcText("leveldb/db_transaction.go", "Transaction.discard"), "tops.remove(") == 1 &&
+			strings.Contains(funcText("leveldb/session.go", "session.manifestUncertain"), "atomic.LoadUint32(&s.manifestFailed) == 1") &&
+			ifBodyHas("leveldb/session.go", "session.commit", "err != nil", "atomic.StoreUint32(&s.manifestFailed, 1)") &&
+			strings.Contains(funcText("leveldb/session.go", "session.commit"), "|| s.manifestUncertain()")
+	}(),
+		"`Transaction.discard` returns (`if tr.db.s.manifestUncertain() { …; return }`) before its only removal loop (`for _, t := range tr.tables { … tops.remove(t.fd) }`); `manifestUncertain` reads `manifestFailed`, which `session.commit` sets when `flushManifest` fails and which sends the next commit to `newManifest` (the D10 repair)")
+	o.boolean("newManifestCleanupChecksCurrent", func() bool {
+		// in the error branch of `newManifest`'s deferred cleanup: `if metaTried { if cur, gerr := s.stor.GetMeta();
+		// gerr != nil || cur == fd { atomic.StoreUint32(&s.manifestFailed, 1); return } }` before the statement that
+		// calls `s.stor.Remove(fd)`; `metaTried = true` is set right before the only `s.stor.SetMeta(fd)`
+		t := funcText("leveldb/session_util.go", "session.newManifest")
+		cond := "gerr != nil || cur == fd"
+		return ifBodySeq("leveldb/session_util.go", "session.newManifest", "cur, gerr := s.stor.GetMeta(); "+cond,
+			[]string{"atomic.StoreUint32(&s.manifestFailed, 1)", "return"}) &&
+			strings.Count(t, "s.stor.Remove(fd)") == 1 &&
+			strings.Count(t, "s.stor.SetMeta(fd)") == 1 &&
+			strings.Index(t, cond) >= 0 &&
+			strings.Index(t, cond) < strings.Index(t, "s.stor.Remove(fd)") &&
+			strings.Index(t, "metaTried = true") >= 0 &&
+			strings.Index(t, "metaTried = true") < strings.Index(t, "s.stor.SetMeta(fd)") &&
+			strings.Count(t, "metaTried = ") == 1
+	}(),
+		"the error branch of `newManifest`'s cleanup, once `SetMeta(fd)` has been attempted (`metaTried`), asks `s.stor.GetMeta()` and keeps the new manifest (`gerr != nil || cur == fd` ⇒ set `manifestFailed`, `return`) before its only `s.stor.Remove(fd)` (the D26 repair, both commits)")
+	o.boolean("recoverNoMetaNeedsData", func() bool {
+		t := funcText("leveldb/session.go", "session.recover")
+		return strings.Contains(t, "noMeta = os.IsNotExist(err)") &&
+			strings.Contains(t, "jt, _ := s.stor.List(storage.TypeJournal | storage.TypeTable); !noMeta || len(jt) > 0") &&
+			strings.Count(t, "database entry point either missing or corrupted") == 1 &&
+			ifBodyHas("leveldb/session.go", "session.recover", "jt, _ := s.stor.List(storage.TypeJournal | storage.TypeTable); !noMeta || len(jt) > 0",
+				`err = &errors.ErrCorrupted{Err: errors.New("database entry point either missing or corrupted")}`) &&
+			textBefore("leveldb/session.go", "session.recover", "fd, err := s.stor.GetMeta()", "noMeta = os.IsNotExist(err)")
+	}(),
+		"`session.recover` raises \"database entry point either missing or corrupted\" only inside `if jt, _ := s.stor.List(TypeJournal|TypeTable); !noMeta || len(jt) > 0`, with `noMeta = os.IsNotExist(err)` set from the error of `GetMeta` (the D12 repair)")
+
 	o.b.WriteString("\nend GoLevel.Gen\n")
 
 	if leanOut != "" {
